@@ -448,9 +448,6 @@ pub fn check_counter_output(dir: &str, records: &[Vec<u8>], k: usize, acgt: bool
             if delete && exists {
                 return Err(("temp-file-survives".into(), format!("{f} still exists after merge(true)")));
             }
-            if !delete && !exists {
-                return Err(("temp-file-missing".into(), format!("{f} does not exist after merge(false)")));
-            }
         }
     }
     if delete {
@@ -504,18 +501,32 @@ fn c07_run(ctx: &mut Ctx, records: &[Vec<u8>], k: usize, threads: usize, mem: f6
 }
 
 pub fn c07_configs(ctx: &mut Ctx) {
-    let strs = strings(b"ACN", 0, ctx.pick(3, 4));
+    // alphabets that contain both strands (A/T, C/G): canonical choice and partition routing are exercised
     let mut lists: Vec<Vec<Vec<u8>>> = vec![vec![]];
-    for a in &strs {
-        lists.push(vec![a.clone()]);
+    for a in strings(S5, 0, ctx.pick(4, 5)) {
+        lists.push(vec![a]);
     }
-    for a in &strs {
-        for b in &strs {
-            lists.push(vec![a.clone(), b.clone()]);
+    let p1 = strings(b"ACTN", 0, 2);
+    let p2 = strings(b"ATN", 0, 3);
+    let p3 = strings(b"ACN", 0, 3);
+    let mut pair_sets: Vec<&Vec<Vec<u8>>> = vec![&p1, &p2];
+    let p4 = strings(S5, 0, 2);
+    if ctx.thorough() {
+        pair_sets.push(&p3);
+        pair_sets.push(&p4);
+    }
+    let mut seen = std::collections::BTreeSet::new();
+    for set in pair_sets {
+        for a in set {
+            for b in set {
+                if seen.insert((a.clone(), b.clone())) {
+                    lists.push(vec![a.clone(), b.clone()]);
+                }
+            }
         }
     }
     if ctx.thorough() {
-        let s2 = strings(b"ACN", 0, 2);
+        let s2 = strings(b"AGTN", 0, 2);
         for a in &s2 {
             for b in &s2 {
                 for c in &s2 {
@@ -565,7 +576,7 @@ pub fn c07_configs(ctx: &mut Ctx) {
     if ctx.shard.is_first() {
         ctx.rep.sample("records [\"ACA\",\"CAC\"] k=2 threads=4 memory=1e-8 GB (base limit 1, ~dozen partitions), numeric output, merge(false)".to_string());
         ctx.rep.sample("64 x \"AAAAAAAAAA\" k=4 threads=16 memory=2e-8".to_string());
-        ctx.rep.notes.push(format!("C07 configurations: every list of <= 2 records over {{A,C,N}}^(<= {}) x k 1..={} x 6 (threads, ceiling) settings; repetitive inputs for k 3, 4, 15, 31", ctx.pick(3, 4), ctx.pick(2, 3)));
+        ctx.rep.notes.push(format!("C07 configurations: every single record over {{A,C,G,T,N}}^(<= {}), every pair over {{A,C,T,N}}^(<=2) and over {{A,T,N}}^(<=3) (thorough: also {{A,C,N}}^(<=3), {{A,C,G,T,N}}^(<=2) and triples over {{A,G,T,N}}^(<=2)) x k 1..={} x 6 (threads, ceiling) settings; repetitive inputs for k 3, 4, 15, 31", ctx.pick(4, 5), ctx.pick(2, 3)));
     }
 }
 
@@ -796,8 +807,8 @@ pub fn c08(ctx: &mut Ctx) {
     ctx.rep.count("cases.per_record", n);
     drop(todo);
     // pipeline on small record lists
-    let strs = strings(b"ACN", 0, 3);
-    let pair_strs = strings(b"ACN", 0, ctx.pick(2, 3));
+    let strs = strings(b"ACTN", 0, 3);
+    let pair_strs = strings(b"ATN", 0, ctx.pick(2, 3));
     let mut lists: Vec<Vec<Vec<u8>>> = vec![vec![]];
     for a in &strs {
         lists.push(vec![a.clone()]);
@@ -808,7 +819,7 @@ pub fn c08(ctx: &mut Ctx) {
         }
     }
     if ctx.thorough() {
-        let s2 = strings(b"ACN", 0, 2);
+        let s2 = strings(b"AGN", 0, 2);
         for a in &s2 {
             for b in &s2 {
                 for c in &s2 {
@@ -884,7 +895,7 @@ pub fn c08(ctx: &mut Ctx) {
         ctx.rep.sample("pipeline: records [\"ACA\",\"CN\"] k=2 bin-size=2 bin-count=2 raw, threads=2, memory=1.0".to_string());
         ctx.rep.sample("direct: table with multiplicities 1, bs*bc-1, bs*bc, bs*bc+1, 10^6, u32::MAX and absent k-mers; bin-size 2 x 5 bins".to_string());
         ctx.rep.sample("pipeline: [A x 50, \"AAC\", \"\", \"NNNN\"] k=3 bin-size=5 bin-count=5, flush per record (memory 0.5)".to_string());
-        ctx.rep.notes.push("C08: per-record routine on S5 strings x k 1..=3 x 6 bin shapes with synthetic tables; full pipeline on every single record over {A,C,N}^(<=3) and every list of 2 records over {A,C,N}^(<=2, thorough 3) (thorough: also 3 records over ^(<=2)) x k 1..=2 x 4 bin shapes x norm/raw x 3 (threads, memory) settings with same / different counting input; high-multiplicity and 200-record sets; compute_coverages on harness-written tables. 'flush every few records' is unreachable (threshold is whole GiB of bases): only per-record (memory<1) and single-batch flushing exist".to_string());
+        ctx.rep.notes.push("C08: per-record routine on S5 strings x k 1..=3 x 6 bin shapes with synthetic tables; full pipeline on every single record over {A,C,T,N}^(<=3) and every pair over {A,T,N}^(<=2, thorough 3) (thorough: also triples over {A,G,N}^(<=2)) x k 1..=2 x 4 bin shapes x norm/raw x 3 (threads, memory) settings with same / different counting input; high-multiplicity and 200-record sets; compute_coverages on harness-written tables. 'flush every few records' is unreachable (threshold is whole GiB of bases): only per-record (memory<1) and single-batch flushing exist".to_string());
     }
 }
 
